@@ -30,7 +30,7 @@ use domain::base::iana::{DigestAlgorithm, SecurityAlgorithm};
 use domain::base::Record;
 use domain::rdata::{Aaaa, Cname, Ds, Ns, Soa, Txt, ZoneRecordData, A};
 use domain::zonetree::types::ZoneCut;
-use domain::zonetree::verif_hooks::{Version, Versioned};
+use domain::zonetree::verif_hooks::{Version, VersionMarker, Versioned, ZoneVersions};
 use domain::zonetree::{ReadableZone, Rrset, SharedRr, SharedRrset, WritableZone, WritableZoneNode, Zone, ZoneBuilder};
 use dv_harness::*;
 use std::collections::BTreeMap;
@@ -175,6 +175,79 @@ fn cell_version(r: &mut Rng, base: u32) -> u32 {
     }
 }
 
+// ---------------------------------------------------------------- ZoneVersions through the hook
+
+#[derive(Clone, Copy, Debug)]
+enum VOp { Commit, Acquire(u32), Release(u32), Clean }
+impl VOp {
+    fn word(&self) -> String { match self { VOp::Commit => "c".into(), VOp::Acquire(s) => format!("a:{}", s), VOp::Release(s) => format!("r:{}", s), VOp::Clean => "k".into() } }
+}
+fn ver_num(v: Version) -> u32 { let s = format!("{:?}", v); s["Version(Serial(".len()..s.len() - 2].parse().unwrap() }
+/// versions listed in `all`, from the Debug output
+fn all_versions(z: &ZoneVersions) -> Vec<u32> {
+    let s = format!("{:?}", z);
+    let p = s.find("all: [").expect("Debug of ZoneVersions");
+    let mut rest = &s[p..];
+    let mut out = vec![];
+    while let Some(q) = rest.find("Serial(") {
+        rest = &rest[q + 7..];
+        let e = rest.find(')').unwrap();
+        out.push(rest[..e].parse().unwrap());
+        rest = &rest[e..];
+    }
+    out
+}
+/// commit = publish_new_zone_version: update_current(next) then push_version(next, marker);
+/// a reader clones `current` as ZoneApex::read does.  Oracle: the current version and
+/// every version some reader holds stay listed; a cleaning removes exactly the
+/// versions nobody holds and returns one of the removed versions (none iff nothing
+/// was removed).
+fn versions_case(out: &mut Out, ops: &[VOp], kind: &str) {
+    let case = format!("zv {}", ops.iter().map(|o| o.word()).collect::<Vec<_>>().join(" "));
+    out.begin(&case);
+    let ops2 = ops.to_vec();
+    let r = catch(move || {
+        let mut z = ZoneVersions::default();
+        let mut readers: BTreeMap<u32, Vec<(Version, Arc<VersionMarker>)>> = BTreeMap::new();
+        let mut parts = vec![];
+        let mut fails: Vec<(&'static str, String)> = vec![];
+        for o in &ops2 {
+            let before = all_versions(&z);
+            let mut res: Option<Option<u32>> = None;
+            match o {
+                VOp::Commit => { let v = z.current().0.next(); let m = z.update_current(v); z.push_version(v, m); }
+                VOp::Acquire(s) => { let c = z.current().clone(); readers.entry(*s).or_default().push(c); }
+                VOp::Release(s) => { readers.remove(s); }
+                VOp::Clean => { res = Some(z.clean_versions().map(ver_num)); }
+            }
+            let all = all_versions(&z);
+            let held: Vec<u32> = readers.values().flatten().map(|(v, _)| ver_num(*v)).collect();
+            let cur = ver_num(z.current().0);
+            if !all.contains(&cur) { fails.push(("current_version_cleaned", format!("after {}: current {} not in {:?}", o.word(), cur, all))); }
+            for h in &held { if !all.contains(h) { fails.push(("held_version_cleaned", format!("after {}: reader holds {} but all = {:?}", o.word(), h, all))); } }
+            if let Some(r0) = res {
+                let want: Vec<u32> = before.iter().copied().filter(|v| *v == cur || held.contains(v)).collect();
+                if all != want { fails.push(("clean_wrong_set", format!("kept {:?}, alive were {:?}", all, want))); }
+                let removed: Vec<u32> = before.iter().copied().filter(|v| !all.contains(v)).collect();
+                if r0.is_none() != removed.is_empty() || r0.map_or(false, |m| !removed.contains(&m)) { fails.push(("clean_wrong_result", format!("result {:?}, removed {:?}", r0, removed))); }
+            }
+            let a = if all.is_empty() { ".".to_string() } else { all.iter().map(|v| v.to_string()).collect::<Vec<_>>().join(",") };
+            parts.push(match res { None => a, Some(r0) => format!("{}=>{}", a, r0.map_or("-".to_string(), |m| m.to_string())) });
+        }
+        (parts.join(" | "), fails)
+    });
+    match r {
+        Ok((obs, fails)) => {
+            for c in ["current_version_cleaned", "held_version_cleaned", "clean_wrong_set", "clean_wrong_result"] {
+                let f = fails.iter().find(|f| f.0 == c);
+                out.check(f.is_none(), c, &case, &f.map_or(String::new(), |f| f.1.clone()));
+            }
+            out.case(&case, &obs, ops.iter().any(|o| matches!(o, VOp::Clean)) && ops.len() >= 4, kind);
+        }
+        Err(p) => { out.check(false, "versions_panic", &case, &p); out.case(&case, "Panic", true, kind); }
+    }
+}
+
 // ---------------------------------------------------------------- names, rrsets
 
 /// Labels from the apex downwards; [] is the apex.  Label k is "n<k>", label 1 is "*".
@@ -207,11 +280,28 @@ fn mk_data(t: u16, id: u32) -> ZoneRecordData<Bytes, Name<Bytes>> {
         _ => ZoneRecordData::Txt(Txt::<Bytes>::build_from_slice(format!("t{}", id).as_bytes()).unwrap()),
     }
 }
-/// rrset number `id` of type `t`; 0 is the empty RRset.
+/// RRset number `id` of type `t`; 0 is the empty RRset.  An SOA RRset is one record
+/// with serial `id` (TTL 3600); every other RRset `id` has 1 + id % 3 records with the
+/// data values 4*id, 4*id+1, .. and the TTL 3600 + id % 7, so that a mixed-up or
+/// partial RRset does not decode.
+fn rr_count(id: u32) -> u32 { 1 + id % 3 }
+fn rr_ttl(t: u16, id: u32) -> u32 { if t == T_SOA { 3600 } else { 3600 + id % 7 } }
 fn mk_rrset(t: u16, id: u32) -> SharedRrset {
-    let mut rs = Rrset::new(Rtype::from_int(t), Ttl::from_secs(3600));
-    if id != 0 { rs.push_data(mk_data(t, id)); }
+    let mut rs = Rrset::new(Rtype::from_int(t), Ttl::from_secs(rr_ttl(t, id)));
+    if id == 0 { return SharedRrset::new(rs); }
+    if t == T_SOA { rs.push_data(mk_data(t, id)); }
+    else { for j in 0..rr_count(id) { rs.push_data(mk_data(t, 4 * id + j)); } }
     SharedRrset::new(rs)
+}
+/// the RRset number of a set of (ttl, data value) records of type `t`, if it is one
+fn rr_decode(t: u16, recs: &[(u32, u32)]) -> Option<u32> {
+    if recs.is_empty() { return None; }
+    if t == T_SOA || t == T_CNAME { return if recs.len() == 1 && recs[0].0 == 3600 { Some(recs[0].1) } else { None }; }
+    let mut vals: Vec<u32> = recs.iter().map(|r| r.1).collect();
+    vals.sort();
+    let id = vals[0] / 4;
+    let want: Vec<u32> = (0..rr_count(id)).map(|j| 4 * id + j).collect();
+    if id != 0 && vals == want && recs.iter().all(|r| r.0 == rr_ttl(t, id)) { Some(id) } else { None }
 }
 fn cname_target(id: u32) -> Name<Bytes> { Name::bytes_from_str(&format!("c{}.{}", id, APEX)).unwrap() }
 fn mk_cname(id: u32) -> SharedRr { SharedRr::new(Ttl::from_secs(3600), ZoneRecordData::Cname(Cname::new(cname_target(id)))) }
@@ -221,7 +311,8 @@ fn mk_cut(n: &Nm, ns: u32, ds: Option<u32>, glue: Option<u32>) -> ZoneCut {
         name: n.abs(),
         ns: mk_rrset(T_NS, ns),
         ds: ds.map(|d| mk_rrset(T_DS, d)),
-        glue: glue.iter().map(|g| Record::new(n.abs(), Class::IN, Ttl::from_secs(3600), mk_data(T_A, *g))).collect(),
+        // glue numbers are multiples of 3: a one-record A RRset
+        glue: glue.iter().map(|g| Record::new(n.abs(), Class::IN, Ttl::from_secs(rr_ttl(T_A, *g)), mk_data(T_A, 4 * *g))).collect(),
     }
 }
 
@@ -255,37 +346,46 @@ fn observe_full(rd: &dyn ReadableZone, name: &Nm, t: u16) -> (String, Option<(u1
     qb.push((qname, rt)).unwrap();
     let qmsg: Message<Vec<u8>> = qb.into();
     let msg: Message<Bytes> = ans.to_message(&qmsg, MessageBuilder::new_bytes()).into();
-    let mut an: Vec<(u16, u32)> = vec![];
+    let mut an: Vec<(u16, u32, u32)> = vec![];
     for r in msg.answer().unwrap().limit_to::<ZoneRecordData<_, ParsedName<_>>>() {
         let r = r.unwrap();
-        an.push((r.rtype().to_int(), data_id(r.data())));
+        an.push((r.rtype().to_int(), r.ttl().as_secs(), data_id(r.data())));
     }
     let opt = |x: Option<u32>| x.map_or("-".to_string(), |x| x.to_string());
-    let (mut soa, mut ns, mut ds, mut other_auth) = (None, None, None, 0);
+    let (mut soa, mut other_auth) = (None, 0);
+    let (mut ns_recs, mut ds_recs, mut glue_recs): (Vec<(u32, u32)>, Vec<(u32, u32)>, Vec<(u32, u32)>) = (vec![], vec![], vec![]);
     for r in msg.authority().unwrap().limit_to::<ZoneRecordData<_, ParsedName<_>>>() {
         let r = r.unwrap();
-        match r.rtype() { Rtype::SOA => soa = Some(data_id(r.data())), Rtype::NS => ns = Some(data_id(r.data())), Rtype::DS => ds = Some(data_id(r.data())), _ => other_auth += 1 }
+        match r.rtype() { Rtype::SOA => soa = Some(data_id(r.data())), Rtype::NS => ns_recs.push((r.ttl().as_secs(), data_id(r.data()))), Rtype::DS => ds_recs.push((r.ttl().as_secs(), data_id(r.data()))), _ => other_auth += 1 }
     }
-    let mut glue = None;
     let mut other_add = 0;
     for r in msg.additional().unwrap().limit_to::<ZoneRecordData<_, ParsedName<_>>>() {
         let r = r.unwrap();
-        if r.rtype() == Rtype::A && glue.is_none() { glue = Some(data_id(r.data())); } else { other_add += 1; }
+        if r.rtype() == Rtype::A { glue_recs.push((r.ttl().as_secs(), data_id(r.data()))); } else { other_add += 1; }
     }
     let rc = ans.rcode();
     if other_auth > 0 || other_add > 0 { return (format!("?sections{}/{}", other_auth, other_add), None); }
-    if let Some(ns) = ns {
-        if rc == Rcode::NOERROR && an.is_empty() && soa.is_none() { return (format!("R{}({})({})", ns, opt(ds), opt(glue)), None); }
+    if !ns_recs.is_empty() {
+        let ns = rr_decode(T_NS, &ns_recs);
+        let ds = if ds_recs.is_empty() { Some(None) } else { rr_decode(T_DS, &ds_recs).map(Some) };
+        let glue = if glue_recs.is_empty() { Some(None) } else { rr_decode(T_A, &glue_recs).map(Some) };
+        if let (Some(ns), Some(ds), Some(glue)) = (ns, ds, glue) {
+            if rc == Rcode::NOERROR && an.is_empty() && soa.is_none() { return (format!("R{}({})({})", ns, opt(ds), opt(glue)), None); }
+        }
         return ("?referral".into(), None);
     }
-    if ds.is_some() || glue.is_some() { return ("?stray".into(), None); }
+    if !ds_recs.is_empty() || !glue_recs.is_empty() { return ("?stray".into(), None); }
     if rc == Rcode::NXDOMAIN && an.is_empty() { return (format!("X({})", opt(soa)), None); }
     if rc != Rcode::NOERROR { return (format!("?rcode{}", rc.to_int()), None); }
     if an.is_empty() { return (format!("N({})", opt(soa)), None); }
     if soa.is_some() { return ("?soa_with_answer".into(), None); }
-    if an.len() == 1 && an[0].0 == T_CNAME { return (format!("C{}", an[0].1), None); }
-    if an.len() == 1 && t == T_ANY { return ("Y".into(), Some(an[0])); }
-    if an.len() == 1 && an[0].0 == t { return (format!("D{}", an[0].1), None); }
+    let at = an[0].0;
+    if an.iter().any(|r| r.0 != at) { return (format!("?mixed{:?}", an), None); }
+    let recs: Vec<(u32, u32)> = an.iter().map(|r| (r.1, r.2)).collect();
+    let id = match rr_decode(at, &recs) { Some(id) => id, None => return (format!("?rrset{:?}", an), None) };
+    if at == T_CNAME { return (format!("C{}", id), None); }
+    if t == T_ANY { return ("Y".into(), Some((at, id))); }
+    if at == t { return (format!("D{}", id), None); }
     (format!("?answer{:?}", an), None)
 }
 fn observe(rd: &dyn ReadableZone, name: &Nm, t: u16) -> String { observe_full(rd, name, t).0 }
@@ -298,7 +398,10 @@ fn walk_of(rd: &dyn ReadableZone) -> Vec<(String, u16, u32)> {
     rd.walk(Box::new(move |owner: Name<Bytes>, rrset: &SharedRrset, _cut: bool| {
         let rel = rel_of(&owner, &apex_n);
         let mut a = acc2.lock().unwrap();
-        for d in rrset.data() { a.push((rel.clone(), rrset.rtype().to_int(), data_id(d))); }
+        let t = rrset.rtype().to_int();
+        let recs: Vec<(u32, u32)> = rrset.data().iter().map(|d| (rrset.ttl().as_secs(), data_id(d))).collect();
+        // an RRset that does not decode is reported as number u32::MAX
+        a.push((rel.clone(), t, rr_decode(t, &recs).unwrap_or(u32::MAX)));
     }));
     let mut v = acc.lock().unwrap().clone();
     v.sort();
@@ -410,6 +513,9 @@ struct Sys {
     stale_effective: bool,
     /// shadow run: operations through `stale_root` are skipped
     skip_stale: bool,
+    /// open(create_diff = true): the writer also records an InMemoryZoneDiff; every node
+    /// handle is dropped before commit (commit unwraps the shared diff builder)
+    diff: bool,
     committed: Content,
     pending: Content,
     pre_session: Option<Snap>,
@@ -431,7 +537,7 @@ impl Sys {
                 Init::Cut(n, ns, ds, g) => { let c = mk_cut(n, *ns, *ds, *g); b.insert_zone_cut(&n.abs(), c.ns, c.ds, c.glue).unwrap(); content.sp.insert(n.clone(), Sp::Cut(*ns, *ds, *g)); }
             }
         }
-        Sys { rt, zone: b.build(), universe, types, readers: BTreeMap::new(), writer: None, queued: None, root: None, stale_root: None, stale_effective: false, skip_stale: false,
+        Sys { rt, zone: b.build(), universe, types, readers: BTreeMap::new(), writer: None, queued: None, root: None, stale_root: None, stale_effective: false, skip_stale: false, diff: false,
               committed: content.clone(), pending: content, pre_session: None }
     }
 
@@ -591,17 +697,27 @@ impl Sys {
                     }
                 } else { obs = Some("granted".into()); }
             }
-            Ev::WOpen => { if let Some(w) = &self.writer { self.root = Some(self.rt.block_on(w.open(false)).unwrap()); } }
+            Ev::WOpen => { if let Some(w) = &self.writer { self.root = None; self.root = Some(self.rt.block_on(w.open(self.diff)).unwrap()); } }
             Ev::Commit | Ev::CommitBump => {
                 let bump = matches!(e, Ev::CommitBump);
+                let mut want_diff: Option<(u32, u32)> = None;
                 if let Some(w) = self.writer.as_mut() {
-                    if let Some(r) = self.root.take() { self.stale_root = Some(r); }
-                    self.rt.block_on(w.commit(bump)).unwrap();
+                    if let Some(r) = self.root.take() { if !self.diff { self.stale_root = Some(r); } }
+                    let zdiff = self.rt.block_on(w.commit(bump)).unwrap();
+                    want_diff = zdiff.map(|d| (d.start_serial.0, d.end_serial.0));
                     if bump {
                         // commit(true): a zone that had a SOA gets serial + 1 unless the writer stored another SOA
                         let k = (Nm(vec![]), T_SOA);
                         if let Some(old) = self.committed.rr.get(&k).copied() {
                             if self.pending.rr.get(&k).map_or(true, |n| *n == old) { self.pending.rr.insert(k, old.wrapping_add(1)); }
+                        }
+                    }
+                    // a recorded diff leads from the SOA of the version that was current to the SOA of the new one
+                    if let Some((from, to)) = want_diff {
+                        let k = (Nm(vec![]), T_SOA);
+                        let (old, new) = (self.committed.rr.get(&k).copied(), self.pending.rr.get(&k).copied());
+                        if old != Some(from) || new != Some(to) {
+                            fails.push(Fail { step: 0, class: "diff_serials_not_versions", detail: format!("commit returned a diff {} -> {} but the SOA serials of the two versions are {:?} -> {:?}", from, to, old, new) });
                         }
                     }
                     self.committed = self.pending.clone();
@@ -658,6 +774,7 @@ impl Sys {
 }
 
 fn run_trace(out: &mut Out, inits: &[Init], evs: &[Ev], universe: Vec<Nm>, kind: &str) {
+    let diff = kind == "zt_diff";
     let case = format!("zt {} ; {}", inits.iter().map(|i| i.word()).collect::<Vec<_>>().join(" "), evs.iter().map(|e| e.word()).collect::<Vec<_>>().join(" "));
     out.begin(&case);
     let types = vec![T_A, T_TXT, T_AAAA, T_SOA, T_DS];
@@ -672,6 +789,7 @@ fn run_trace(out: &mut Out, inits: &[Init], evs: &[Ev], universe: Vec<Nm>, kind:
         catch_mut(move || {
             let mut sys = Sys::new(inits, universe, types);
             sys.skip_stale = skip_stale;
+            sys.diff = diff;
             let mut fails: Vec<Fail> = vec![];
             let mut obs: Vec<String> = vec![];
             let mut first_stale: Option<usize> = None;
@@ -697,7 +815,7 @@ fn run_trace(out: &mut Out, inits: &[Init], evs: &[Ev], universe: Vec<Nm>, kind:
         }
         (obs, fails)
     });
-    let classes = ["snapshot_changed", "commit_not_atomic", "abort_visible", "walk_mismatch", "any_not_in_version",
+    let classes = ["snapshot_changed", "commit_not_atomic", "abort_visible", "walk_mismatch", "any_not_in_version", "diff_serials_not_versions",
         "second_writer_granted", "writer_lock_stuck", "stale_node_handle_write"];
     match r {
         Ok((obs, fails)) => {
@@ -724,7 +842,7 @@ fn gen_data(r: &mut Rng, n: Nm, val: u32) -> Ev {
         11 => Ev::RemoveAll,
         12 => if n.0.is_empty() { Ev::RemoveAll } else { Ev::RemoveAllAt(n) },
         13 | 14 => if n.0.is_empty() { Ev::Update(n, T_A, val) } else { Ev::CnameAt(n, val) },
-        15 | 16 => if n.0.is_empty() { Ev::Update(n, T_TXT, val) } else { Ev::CutAt(n, val, if r.chance(1, 2) { Some(val + 1000) } else { None }, if r.chance(1, 2) { Some(val + 2000) } else { None }) },
+        15 | 16 => if n.0.is_empty() { Ev::Update(n, T_TXT, val) } else { Ev::CutAt(n, val, if r.chance(1, 2) { Some(val + 1000) } else { None }, if r.chance(1, 2) { Some((val + 2000) / 3 * 3) } else { None }) },
         _ => if n.0.is_empty() { Ev::Remove(n, T_A) } else { Ev::Regular(n) },
     }
 }
@@ -785,7 +903,7 @@ fn gen_inits(r: &mut Rng, names: &[Nm], p_num: u64) -> Vec<Init> {
             if r.chance(p_num, 10) { val += 1; v.push(Init::Rrset(n.clone(), t, val)); }
         }
         if !n.0.is_empty() && r.chance(1, 12) { val += 1; v.push(Init::Cname(n.clone(), val)); }
-        else if !n.0.is_empty() && r.chance(1, 12) { val += 1; v.push(Init::Cut(n.clone(), val, if r.chance(1, 2) { Some(val + 1000) } else { None }, if r.chance(1, 2) { Some(val + 2000) } else { None })); }
+        else if !n.0.is_empty() && r.chance(1, 12) { val += 1; v.push(Init::Cut(n.clone(), val, if r.chance(1, 2) { Some(val + 1000) } else { None }, if r.chance(1, 2) { Some((val + 2000) / 3 * 3) } else { None })); }
     }
     v
 }
@@ -802,55 +920,102 @@ fn existing_nodes(inits: &[Init]) -> Vec<Nm> {
 
 // ---------------------------------------------------------------- thread stress (supporting only)
 
-fn stress(out: &mut Out, millis: u64) -> (u64, u64) {
+/// Real threads, supporting evidence only: 8 reader threads and one writer thread.
+/// The run is count-based (a fixed number of writer sessions, every third one
+/// aborted; readers run until the writer is done), and every 16th session waits -
+/// by counting reader passes, not by time - until a reader pass has started while
+/// the session is open, so that some overlap is there whatever the machine load.
+/// The writer publishes a step counter; a reader pass records the counter when it
+/// acquires its ReadZone and when it has finished its second look, which tells what
+/// the writer did meanwhile.  Returns the coverage as a JSON object.
+fn stress(out: &mut Out, sessions: u32) -> String {
+    use std::sync::atomic::{AtomicBool, AtomicU64, Ordering::SeqCst};
     let names: Vec<Nm> = (2..8).map(Nm::flat).collect();
     let mut b = ZoneBuilder::new(apex(), Class::IN);
     for n in &names { b.insert_rrset(&n.abs(), mk_rrset(T_A, 1)).unwrap(); }
     b.insert_rrset(&apex(), mk_rrset(T_SOA, 1)).unwrap();
     let zone = b.build();
-    let stop = Arc::new(std::sync::atomic::AtomicBool::new(false));
+    let stop = Arc::new(AtomicBool::new(false));
     let bad: Arc<Mutex<Vec<String>>> = Arc::new(Mutex::new(vec![]));
-    let reads = Arc::new(std::sync::atomic::AtomicU64::new(0));
+    // writer progress: steps done (acquire, open, each update, commit/drop), commits done, and whether a session is open
+    let steps = Arc::new(AtomicU64::new(0));
+    let commits_done = Arc::new(AtomicU64::new(0));
+    let session_open = Arc::new(AtomicBool::new(false));
+    let passes_started = Arc::new(AtomicU64::new(0));
+    #[derive(Default, Clone)]
+    struct Cov { passes: u64, overlapped_steps: u64, overlapped_commit: u64, started_in_session: u64, held_across_2_commits: u64, gens: std::collections::BTreeSet<u32> }
     let mut hs = vec![];
     for _ in 0..8 {
-        let (zone, stop, bad, reads, names) = (zone.clone(), stop.clone(), bad.clone(), reads.clone(), names.clone());
+        let (zone, stop, bad, names) = (zone.clone(), stop.clone(), bad.clone(), names.clone());
+        let (steps, commits_done, session_open, passes_started) = (steps.clone(), commits_done.clone(), session_open.clone(), passes_started.clone());
         hs.push(std::thread::spawn(move || {
-            while !stop.load(std::sync::atomic::Ordering::Relaxed) {
+            let mut cov = Cov::default();
+            while !stop.load(SeqCst) {
+                let (s0, c0, in_session) = (steps.load(SeqCst), commits_done.load(SeqCst), session_open.load(SeqCst));
+                passes_started.fetch_add(1, SeqCst);
                 let rd = zone.read();
                 let first: Vec<String> = names.iter().map(|n| observe(rd.as_ref(), n, T_A)).collect();
                 let soa = observe(rd.as_ref(), &Nm(vec![]), T_SOA);
                 // every name carries the generation of the version; all equal
                 if first.iter().any(|x| x != &first[0]) || soa != first[0] { bad.lock().unwrap().push(format!("torn version: {:?} soa {}", first, soa)); }
-                if first[0].starts_with("D") { if let Ok(g) = first[0][1..].parse::<u32>() { if g >= 1_000_000 { bad.lock().unwrap().push(format!("aborted generation visible: {}", first[0])); } } }
+                let g = first[0].strip_prefix('D').and_then(|x| x.parse::<u32>().ok());
+                match g { Some(g) if g < 1_000_000 => { cov.gens.insert(g); } _ => bad.lock().unwrap().push(format!("aborted or broken generation visible: {}", first[0])) }
                 std::thread::yield_now();
                 let again: Vec<String> = names.iter().rev().map(|n| observe(rd.as_ref(), n, T_A)).collect();
                 if again.iter().any(|x| x != &first[0]) { bad.lock().unwrap().push(format!("held reader changed: {:?} -> {:?}", first, again)); }
-                reads.fetch_add(1, std::sync::atomic::Ordering::Relaxed);
+                let (s1, c1) = (steps.load(SeqCst), commits_done.load(SeqCst));
+                cov.passes += 1;
+                if s1 > s0 { cov.overlapped_steps += 1; }
+                if c1 > c0 { cov.overlapped_commit += 1; }
+                if c1 >= c0 + 2 { cov.held_across_2_commits += 1; }
+                if in_session { cov.started_in_session += 1; }
             }
+            cov
         }));
     }
     let rt = tokio::runtime::Builder::new_current_thread().enable_all().build().unwrap();
-    let t0 = std::time::Instant::now();
     let mut gen = 1u32;
-    let mut commits = 0u64;
-    while t0.elapsed() < Duration::from_millis(millis) {
-        let abort = gen % 3 == 0;
-        let g = if abort { 1_000_000 + gen } else { gen + 1 };
+    let (mut commits, mut aborts, mut forced, mut forced_missed) = (0u64, 0u64, 0u64, 0u64);
+    for k in 0..sessions {
+        let abort = k % 3 == 2;
+        let g = if abort { 1_000_000 + k } else { gen + 1 };
         let mut w = rt.block_on(zone.write());
+        steps.fetch_add(1, SeqCst);
         let root = rt.block_on(w.open(false)).unwrap();
-        for n in &names {
+        session_open.store(true, SeqCst);
+        steps.fetch_add(1, SeqCst);
+        let p0 = passes_started.load(SeqCst);
+        for (i, n) in names.iter().enumerate() {
             let h = rt.block_on(root.update_child(Label::from_slice(Nm::label(n.0[0]).as_bytes()).unwrap())).unwrap();
             rt.block_on(h.update_rrset(mk_rrset(T_A, g))).unwrap();
+            steps.fetch_add(1, SeqCst);
+            if k % 16 == 0 && i == 2 {
+                // wait for a reader pass to start inside this session (bounded by a count of yields)
+                forced += 1;
+                let mut spins = 0u64;
+                while passes_started.load(SeqCst) == p0 && spins < 5_000_000 { std::thread::yield_now(); spins += 1; }
+                if passes_started.load(SeqCst) == p0 { forced_missed += 1; }
+            }
         }
         rt.block_on(root.update_rrset(mk_rrset(T_SOA, g))).unwrap();
+        steps.fetch_add(1, SeqCst);
         drop(root);
-        if abort { drop(w); gen += 1; } else { rt.block_on(w.commit(false)).unwrap(); drop(w); gen = g; commits += 1; }
+        if abort { session_open.store(false, SeqCst); drop(w); aborts += 1; }
+        else { rt.block_on(w.commit(false)).unwrap(); commits_done.fetch_add(1, SeqCst); session_open.store(false, SeqCst); drop(w); gen = g; commits += 1; }
+        steps.fetch_add(1, SeqCst);
     }
-    stop.store(true, std::sync::atomic::Ordering::Relaxed);
-    for h in hs { let _ = h.join(); }
+    stop.store(true, SeqCst);
+    let mut tot = Cov::default();
+    for h in hs {
+        if let Ok(c) = h.join() {
+            tot.passes += c.passes; tot.overlapped_steps += c.overlapped_steps; tot.overlapped_commit += c.overlapped_commit;
+            tot.started_in_session += c.started_in_session; tot.held_across_2_commits += c.held_across_2_commits; tot.gens.extend(c.gens);
+        }
+    }
     let bad = bad.lock().unwrap();
     out.check(bad.is_empty(), "stress_inconsistent", "stress 8 readers 1 writer", &bad.first().cloned().unwrap_or_default());
-    (reads.load(std::sync::atomic::Ordering::Relaxed), commits)
+    format!("{{\"writer_sessions\": {}, \"commits\": {}, \"aborts\": {}, \"writer_steps\": {}, \"reader_threads\": 8, \"reader_passes\": {}, \"passes_started_inside_a_session\": {}, \"passes_during_which_the_writer_stepped\": {}, \"passes_during_which_a_commit_happened\": {}, \"passes_held_across_two_or_more_commits\": {}, \"distinct_generations_seen_by_readers\": {}, \"sessions_that_waited_for_a_reader_pass\": {}, \"of_which_no_reader_showed_up\": {}, \"checked_per_pass\": \"6 names + SOA carry one generation (atomic commit, no aborted generation), second look by the same ReadZone unchanged\"}}",
+        sessions, commits, aborts, steps.load(SeqCst), tot.passes, tot.started_in_session, tot.overlapped_steps, tot.overlapped_commit, tot.held_across_2_commits, tot.gens.len(), forced, forced_missed)
 }
 
 // ---------------------------------------------------------------- main
@@ -860,6 +1025,12 @@ fn main() {
     let mut out = Out::new(&a, "C09", 60);
     let mut r = Rng::new(a.seed);
     let mut idx = 0u64;
+    if a.extra.iter().any(|x| x == "stress") {
+        // c09 ... stress : only the thread run (for looking at its coverage)
+        let cov = stress(&mut out, 30000);
+        out.finish(&[("stress_supporting_only", cov)]);
+        return;
+    }
     out.check(ver_selftest(), "harness_version_layout", "ver_selftest", "transmute u32 -> Version does not match default()/next()");
 
     // ---- (1) Versioned<u32>: corpus
@@ -903,6 +1074,26 @@ fn main() {
         let n = r.range(1, 6) as usize;
         let mut rr = r.fork();
         if out.wants(idx) { cell_sessions(&mut out, &mut rr, base, n); }
+    }
+
+    // ---- (1b) ZoneVersions / VersionMarker
+    {
+        use VOp::*;
+        let corpus: Vec<Vec<VOp>> = vec![
+            vec![Acquire(0), Commit, Acquire(1), Commit, Release(1), Clean, Commit, Clean],
+            vec![Clean, Commit, Clean, Commit, Commit, Clean],
+            vec![Acquire(0), Acquire(0), Commit, Release(0), Clean, Acquire(1), Commit, Commit, Acquire(2), Commit, Release(1), Clean, Release(2), Clean],
+            // two dead versions at once: the result is the greater one
+            vec![Acquire(0), Commit, Acquire(1), Commit, Acquire(2), Commit, Release(1), Release(2), Clean, Release(0), Clean],
+        ];
+        for c in &corpus { idx += 1; if out.wants(idx) { versions_case(&mut out, c, "zv_corpus"); } }
+        let n_zv = if a.thorough { 20_000 } else { 800 } * a.scale;
+        for _ in 0..n_zv {
+            let n = r.range(3, 25) as usize;
+            let ops: Vec<VOp> = (0..n).map(|_| match r.below(10) { 0..=2 => Commit, 3..=5 => Acquire(r.below(4) as u32), 6 | 7 => Release(r.below(4) as u32), _ => Clean }).collect();
+            idx += 1;
+            if out.wants(idx) { versions_case(&mut out, &ops, "zv_random"); }
+        }
     }
 
     // ---- (2) zone traces
@@ -954,11 +1145,14 @@ fn main() {
                 vec![Ev::Acquire(0), Ev::Query(0, p(&[3]), T_A), Ev::Query(0, p(&[3]), T_DS), Ev::Query(0, p(&[3, 4]), T_A), Ev::Query(0, p(&[3, 5, 2]), T_A), Ev::Walk(0),
                      Ev::WAcquire, Ev::WOpen, Ev::Regular(p(&[3])), Ev::CutAt(p(&[2]), 95, None, None), Ev::Query(0, p(&[3, 4]), T_A), Ev::Commit, Ev::Acquire(1),
                      Ev::Query(1, p(&[3, 4]), T_A), Ev::Query(1, p(&[2]), T_A), Ev::Query(1, p(&[2]), T_DS), Ev::Query(0, p(&[2]), T_A), Ev::Walk(1), Ev::Walk(0),
-                     Ev::WOpen, Ev::CutAt(p(&[3]), 96, None, Some(97)), Ev::Drop, Ev::Acquire(2), Ev::Query(2, p(&[3, 4]), T_A), Ev::Walk(2)]),
+                     Ev::WOpen, Ev::CutAt(p(&[3]), 96, None, Some(99)), Ev::Drop, Ev::Acquire(2), Ev::Query(2, p(&[3, 4]), T_A), Ev::Walk(2)]),
             // commit(true): serial bumped unless the writer stored a SOA; removing the SOA counts as not having stored one
             (vec![soa.clone(), www.clone()], vec![Ev::Acquire(0), Ev::WAcquire, Ev::WOpen, Ev::Update(Nm::flat(2), T_A, 13), Ev::CommitBump, Ev::Acquire(1), Ev::Query(1, Nm::flat(0), T_SOA), Ev::Query(0, Nm::flat(0), T_SOA),
                 Ev::Query(1, Nm::flat(3), T_A), Ev::WOpen, Ev::Update(Nm::flat(0), T_SOA, 7), Ev::CommitBump, Ev::Acquire(2), Ev::Query(2, Nm::flat(0), T_SOA), Ev::WOpen, Ev::Remove(Nm::flat(0), T_SOA), Ev::CommitBump,
                 Ev::Acquire(3), Ev::Query(3, Nm::flat(0), T_SOA), Ev::CommitBump, Ev::Drop, Ev::Acquire(0), Ev::Query(0, Nm::flat(0), T_SOA), Ev::Walk(0), Ev::Walk(1)]),
+            // commit(true) at the end of the serial space: 2^32 - 1 is followed by serial 0, a SOA like any other
+            (vec![Init::Rrset(Nm(vec![]), T_SOA, 0xFFFF_FFFF), www.clone()], vec![Ev::Acquire(0), Ev::WAcquire, Ev::CommitBump, Ev::Acquire(1), Ev::Query(1, Nm::flat(0), T_SOA), Ev::Query(1, Nm::flat(3), T_A),
+                Ev::Query(0, Nm::flat(0), T_SOA), Ev::CommitBump, Ev::Acquire(2), Ev::Query(2, Nm::flat(0), T_SOA), Ev::Walk(1), Ev::Walk(2), Ev::Walk(0)]),
             // ANY
             (vec![soa.clone(), www.clone(), Init::Rrset(Nm::flat(2), T_TXT, 12)], vec![Ev::Acquire(0), Ev::Query(0, Nm::flat(2), T_ANY), Ev::Query(0, Nm::flat(3), T_ANY), Ev::Query(0, Nm::flat(0), T_ANY),
                 Ev::WAcquire, Ev::WOpen, Ev::Remove(Nm::flat(2), T_A), Ev::Remove(Nm::flat(2), T_TXT), Ev::Update(Nm::flat(3), T_AAAA, 13), Ev::Query(0, Nm::flat(2), T_ANY), Ev::Commit, Ev::Acquire(1),
@@ -987,8 +1181,16 @@ fn main() {
         idx += 1;
         if out.wants(idx) { run_trace(&mut out, &inits, &evs, names.clone(), if create_ok { "zt_tree_create" } else { "zt_tree" }); }
     }
+    // the same with diff recording switched on: it must not change what any version contains
+    let n_diff = if a.thorough { 5_000 } else { 200 } * a.scale;
+    for _ in 0..n_diff {
+        let inits = gen_inits(&mut r, &names[..9], 3);
+        let evs = gen_trace(&mut r, &names, &names, 40, false);
+        idx += 1;
+        if out.wants(idx) { run_trace(&mut out, &inits, &evs, names.clone(), "zt_diff"); }
+    }
     // long histories: many successive versions, readers held across several of them
-    let n_long = if a.thorough { 1_500 } else { 40 } * a.scale;
+    let n_long = if a.thorough { 600 } else { 40 } * a.scale;
     for _ in 0..n_long {
         let inits = gen_inits(&mut r, &names[..9], 3);
         let evs = gen_trace(&mut r, &names, &names, 160, false);
@@ -1024,9 +1226,8 @@ fn main() {
     let mut extra: Vec<(&str, String)> = vec![];
     if a.thorough && a.only.is_none() {
         out.begin("stress");
-        let (reads, commits) = stress(&mut out, 1000);
-        extra.push(("stress_reader_passes", reads.to_string()));
-        extra.push(("stress_commits", commits.to_string()));
+        let cov = stress(&mut out, 30000);
+        extra.push(("stress_supporting_only", cov));
     }
     let fc = FAIL_COUNTS.lock().unwrap().iter().map(|(k, v)| format!("{}: {}", json_str(k), v)).collect::<Vec<_>>().join(", ");
     extra.push(("zone_oracle_failing_traces_by_class", format!("{{{}}}", fc)));
